@@ -112,8 +112,11 @@ def pipeline(tid, spec, gd, rng, events):
     inside = float((top[1] + top[2]) / 2)            # a shift INSIDE the spectrum that is no eigenvalue
     settings = [(None, "LR"), (0.05 * float(np.abs(Q.diagonal()).max()), "LM")]
     # the shift must be well away from the eigenvalues, and the set of the six eigenvalues nearest to it must be unambiguous
-    dist = np.sort(np.abs(dense_all.real - inside))
-    if abs(top[1] - top[2]) > 1e-4 * rho and len(dist) > 6 and (dist[6] - dist[5]) > 1e-3 * max(dist[6], 1e-300):
+    order_by_dist = np.argsort(np.abs(dense_all.real - inside))
+    dist = np.abs(dense_all.real - inside)[order_by_dist]
+    nearest_are_top = bool(np.allclose(np.sort(dense_all.real[order_by_dist[:6]])[::-1], top[:6], rtol=0, atol=1e-9 * rho))
+    # only when the six eigenvalues nearest to the shift ARE the six largest (so that "the largest is zero" is meaningful)
+    if abs(top[1] - top[2]) > 1e-4 * rho and len(dist) > 6 and (dist[6] - dist[5]) > 1e-3 * max(dist[6], 1e-300) and nearest_are_top:
         settings.append((inside, "LM"))
     for sigma, which in settings:
         dec = dict(tid=tid, ev="Decompose", err="", lam=[], dense=[], imag=0, spread=0, k=6, sigma=0 if sigma is None else 1)
